@@ -565,6 +565,33 @@ fn explore_all(prop: &str, thorough: bool, rng: &mut Rng, out: &mut Out) {
             ex.visit(&c);
         }
     }
+    many_big_pages(&mut ex, rng);
+}
+
+/// Many large pages with a retry: a budget or a counter shared between attempts only shows when the chunks of
+/// all attempts together pass 65 535 (each attempt stays below the 16-bit limit: 9 x 4096 = 36 864 chunks).
+fn many_big_pages(ex: &mut Explore<'_>, rng: &mut Rng) {
+    let a = 3u16;
+    let npages = 9;
+    let item = (0..npages).map(|_| format!("g:65536:{}", rng.below(100))).collect::<Vec<_>>().join(";");
+    let items = match parse_items(&item) {
+        Some(i) => i,
+        None => return,
+    };
+    let n: usize = npages * 4096;
+    let mut s: Vec<String> = vec![];
+    for k in 0..2 {
+        s.push(ak(a, Operation::ReceivePixels));
+        for _ in 0..n {
+            s.push("none".into());
+        }
+        s.push("none".into());
+        s.push(if k == 0 { rs(a, State::PixelsFailed) } else { rs(a, State::PixelsReceived) });
+    }
+    s.push("none".into());
+    s.push(rs(a, State::PageLoaded));
+    let c = run_conv("snd", 2, a, &items, &item, &s);
+    ex.visit(&c);
 }
 
 /// Domain limit (outside the property's quantifier, reported in the evidence only, never a verdict):
@@ -794,6 +821,16 @@ pub fn c08(thorough: bool, rng: &mut Rng, out: &mut Out) {
                 let st3 = if style == PageFlipStyle::Manual { 7 } else { 11 };
                 if !out.impls[i].contains(&format!("| {}/{}/{}/", st3, ti, npages)) || !out.impls[i].starts_with(&format!("ok {} ok ok |", res)) {
                     out.fail(i, format!("C08 after load_next_page: '{}'", out.impls[i]));
+                }
+                // the SAME pages sent again by the same controller object after a show (and after show + load-next):
+                // a repeated send is a send — the sign must be back in loaded / showing with exactly those pages
+                for mid in [format!("shw,{},-", at), format!("shw,{},- nxt,{},- shw,{},-", at, at, at)] {
+                    let i = out.case(format!("{} cfg,{},- snd,{},{} {} snd,{},{}", head, at, at, ptok, mid, at, ptok), true);
+                    out.stat("e2e.resend-same-pages");
+                    let want_tail = format!("{} | {}/{}/{}/{}", res, st, ti, npages, hsh);
+                    if !out.impls[i].ends_with(&want_tail) || out.impls[i].contains("err") {
+                        out.fail(i, format!("C08 after sending the same pages again the run gave '{}', expected it to end in '{}'", out.impls[i], want_tail));
+                    }
                 }
             }
         }
